@@ -128,6 +128,11 @@ Definition s_step (k : kind) (cap : nat) (s : st A) (o : op A) : option (st A * 
   | Clear => Some (updc s ([], SUnit))
   | Swap => Some ({| cur := oth s; oth := cur s |}, SUnit)
   | Extract => Some (updc s ([], SElems (cur s)))
+  | AssignIter ks =>   (* construction from a range: each key in turn; a key that does not fit ends the
+                          domain where the container treats that as fatal *)
+      let r := s_insert_range k cap ks [] in
+      if fatal k (snd r) then None else Some (updc s (fst r, SUnit))
+  | CopyFrom => Some (updc s (oth s, SUnit))
   end.
 
 Fixpoint s_run (k : kind) (cap : nat) (s : st A) (ops : list (op A))
@@ -144,6 +149,55 @@ Fixpoint s_run (k : kind) (cap : nat) (s : st A) (ops : list (op A))
                | Some (s'', rs) => Some (s'', (r, cur s') :: rs)
                end
       end
+  end.
+
+(** * std::set with no capacity at all -- what the property compares with "as long as capacity is
+      not exceeded".  Nothing here mentions a capacity; SFull never occurs. *)
+Definition u_insert_all (ks : list A) (l : list A) : list A :=
+  fold_left (fun acc x => fst (s_insert x acc)) ks l.
+
+Definition u_step (k : kind) (s : st A) (o : op A) : option (st A * sout) :=
+  if negb (has_member k o) then None else
+  match o with
+  | Insert x | Emplace x =>
+      let r := s_insert x (cur s) in Some (updc s (fst r, SIns (fst (snd r)) (snd (snd r))))
+  | InsertHint _ x => let r := s_insert x (cur s) in Some (updc s (fst r, SPos (fst (snd r))))
+  | InsertRange ks => Some (updc s (u_insert_all ks (cur s), SUnit))
+  | Assign ks | AssignIter ks => Some (updc s (u_insert_all ks [], SUnit))
+  | AssignSorted ks | Replace ks => if is_set_b ks then Some (updc s (ks, SUnit)) else None
+  | EraseKey x => let r := s_erase_key x (cur s) in Some (updc s (fst r, SCount (snd r)))
+  | ErasePos p =>
+      match s_erase_pos p (cur s) with Some r => Some (updc s (fst r, SPos (snd r))) | None => None end
+  | EraseRange a b =>
+      match s_erase_range a b (cur s) with Some r => Some (updc s (fst r, SPos (snd r))) | None => None end
+  | EraseIf pred => let r := s_erase_if pred (cur s) in Some (updc s (fst r, SCount (snd r)))
+  | Clear => Some (updc s ([], SUnit))
+  | Swap => Some ({| cur := oth s; oth := cur s |}, SUnit)
+  | Extract => Some (updc s ([], SElems (cur s)))
+  | CopyFrom => Some (updc s (oth s, SUnit))
+  end.
+
+Fixpoint u_run (k : kind) (s : st A) (ops : list (op A)) : option (st A * list (sout * list A)) :=
+  match ops with
+  | [] => Some (s, [])
+  | o :: t =>
+      match u_step k s o with
+      | None => None
+      | Some (s', r) =>
+          match u_run k s' t with
+          | None => None
+          | Some (s'', rs) => Some (s'', (r, cur s') :: rs)
+          end
+      end
+  end.
+
+(* "capacity is not exceeded": no set along the history holds more than cap elements (stated on
+   the trace), and no container handed to the set (the source of an assignment from a container /
+   of replace) holds more than cap elements *)
+Definition within (cap : nat) (o : op A) : Prop :=
+  match o with
+  | Assign ks | AssignSorted ks | Replace ks => length ks <= cap
+  | _ => True
   end.
 
 (** * Relations: [container.requirements] a == b is equal(...), a < b is lexicographical_compare(...)
@@ -168,6 +222,15 @@ Definition s_relations (l1 l2 : list A) : list bool :=
 
 (** * flat_multiset(container): the same elements in weakly ascending order *)
 Definition is_multiset_of (input result : list A) : Prop := is_multiset result /\ Permutation result input.
+
+(* std::multiset(first, last): each element in turn, inserted at the upper bound of its
+   equivalents ([associative.reqmts] insert for equal keys: "inserted at the upper bound of that range") *)
+Fixpoint ms_insert (x : A) (l : list A) : list A :=
+  match l with
+  | [] => [x]
+  | y :: t => if lt x y then x :: l else y :: ms_insert x t
+  end.
+Definition s_multiset_of_range (ks : list A) : list A := fold_left (fun acc x => ms_insert x acc) ks [].
 
 End SetSpec.
 
